@@ -897,6 +897,15 @@ func ParseSpecFile(path, pkg string, isGo, trusted bool) (*SpecFile, error) {
 				cur.Asserts[k] = append(cur.Asserts[k], &Clause{Kind: "ghost", LHS: lhs, E: rhs, Text: body})
 				continue
 			}
+			if strings.HasPrefix(body, "assume_after ") {
+				e, err := ParseExpr(strings.TrimPrefix(body, "assume_after "))
+				if err != nil {
+					return nil, fail(i, "%v", err)
+				}
+				k := strings.TrimSpace(parts[0])
+				cur.Asserts[k] = append(cur.Asserts[k], &Clause{Kind: "assume_after", E: e, Text: strings.TrimPrefix(body, "assume_after ")})
+				continue
+			}
 			if strings.HasPrefix(body, "assume ") {
 				e, err := ParseExpr(strings.TrimPrefix(body, "assume "))
 				if err != nil {
